@@ -29,6 +29,15 @@
 (*   Held   a seq                   slice a read again                     *)
 (*   Scribble a seq                 the caller overwrote slice a with seq  *)
 (*                                                                         *)
+(*   EnumOpen kind i                enumerator i of the kind ("k" keys,    *)
+(*                                  "v" values, "e" entries) is opened     *)
+(*   EnumMore i b                   HasMoreElements() of enumerator i      *)
+(*   EnumNext i x | p               the next element of enumerator i: a    *)
+(*                                  key / value x, or an entry p = <<k, v>>*)
+(*                                  (stepped enumerations: any read-only   *)
+(*                                  calls lie between these events)        *)
+(*   EnumDrop                       the caller lets go of its enumerators  *)
+(*                                                                         *)
 (* Keys are ranks in the history's sorted key pool, results are tuples     *)
 (* (<<v>> or the type's "absent"), see PlainMap.  Enumerations are judged  *)
 (* as bags: every stored element exactly once, in any order.  A recorded   *)
@@ -65,7 +74,7 @@ Obs == Has(e, "size") /\ e.size = Cardinality(DOMAIN m')
 
 TraceReset == /\ Step("Reset")
               /\ Has(e, "t") /\ Has(e, "ek") /\ e.t \in DOMAIN TypeCfg
-              /\ m' = EmptyFn /\ held' = <<>> /\ arrs' = <<>>
+              /\ m' = EmptyFn /\ held' = <<>> /\ arrs' = <<>> /\ ens' = <<>>
               /\ IF Has(e, "none")
                  THEN e.t = "IntIntMap" /\ Len(e.none) = 1 /\ cfg' = CfgOf(e.t, e.ek, e.none)
                  ELSE cfg' = CfgOf(e.t, e.ek, TypeCfg[e.t].none)
@@ -157,7 +166,8 @@ TraceHeld == Step("Held") /\ Has(e, "a") /\ Has(e, "seq") /\ ArrIs(e.a, e.seq) /
 TraceScribble == Step("Scribble") /\ Has(e, "a") /\ Has(e, "seq") /\ ArrWrite(e.a, e.seq) /\ Obs
 
 \* re-bucketing the table in the order of a comparator: the map is the same map
-TraceSort == Step("Sort") /\ Has(e, "dir") /\ ReadOnly /\ Obs
+\* (the structure is rebuilt: enumerators opened before it are not stepped any more)
+TraceSort == Step("Sort") /\ Has(e, "dir") /\ Rebuild /\ Obs
 \* rendering: one "key=value" / element item per stored entry
 Render(name) == Step(name) /\ Has(e, "items") /\ e.items = Size /\ ReadOnly /\ Obs
 TraceToString       == Render("ToString")
@@ -177,8 +187,25 @@ TraceToBytes == /\ Step("ToBytes") /\ Has(e, "kv") /\ Has(e, "bytes")
 TraceRoundTrip == /\ Step("RoundTrip") /\ Has(e, "keys") /\ Has(e, "vals")
                   /\ cfg.t = "IntIntMap"
                   /\ ProjOK(e.keys, e.vals)
-                  /\ IF Has(e, "hold") /\ e.hold = TRUE THEN Fork ELSE ReadOnly
+                  /\ IF Has(e, "hold") /\ e.hold = TRUE THEN Fork ELSE Rebuild
                   /\ Obs
+
+\* ---- stepped enumerations ---------------------------------------------------------
+\* Between EnumOpen and the last EnumNext of an enumerator lie only read-only
+\* calls (the harness drops its enumerators at every other call, as the model
+\* does): "more?" is answered TRUE iff not everything was yielded yet, and every
+\* element yielded is a stored one not yielded before (values: as a bag).
+TraceEnumOpen == /\ Step("EnumOpen") /\ Has(e, "kind") /\ Has(e, "i")
+                 /\ e.i = Len(ens) + 1 /\ EnumOpen(e.kind) /\ Obs
+TraceEnumMore == /\ Step("EnumMore") /\ Has(e, "i") /\ Has(e, "b")
+                 /\ e.i \in 1..Len(ens) /\ e.b = EnumMore(e.i)
+                 /\ ReadOnly /\ Obs
+TraceEnumNext == /\ Step("EnumNext") /\ Has(e, "i") /\ e.i \in 1..Len(ens)
+                 /\ IF ens[e.i].kind = "e"
+                    THEN Has(e, "p") /\ Len(e.p) = 2 /\ EnumNext(e.i, e.p)
+                    ELSE Has(e, "x") /\ EnumNext(e.i, e.x)
+                 /\ Obs
+TraceEnumDrop == Step("EnumDrop") /\ ens # <<>> /\ EnumForget /\ Obs
 
 TraceNext ==
   ( \/ TraceReset
@@ -188,6 +215,7 @@ TraceNext ==
     \/ TraceKeys \/ TraceKeyArray \/ TraceValues \/ TraceValueArray \/ TraceEntries \/ TraceProj
     \/ TraceSort \/ TraceToString \/ TraceToFormatString
     \/ TraceToBytes \/ TraceRoundTrip
+    \/ TraceEnumOpen \/ TraceEnumMore \/ TraceEnumNext \/ TraceEnumDrop
     \/ TraceNew \/ TraceSwap \/ TracePutAllFrom \/ TraceHProj \/ TraceHold \/ TraceHeld \/ TraceScribble )
   /\ InvAll'
 
